@@ -519,22 +519,6 @@ theorem lstep_cancelFound (st : St) (a : Nat) (ha : a ∈ listOf st (st.getW a).
     fun t h => hun t (by rw [gN.lists] at h; exact h)
   exact (((LStep.trans (fun _ _ => fE) gN.lstep).trans (lstep_free_unlisted _ a hunN)).trans (g4_cancelRest _ _).lstep) hc w
 
-theorem l_watchCancel (st : St) (a : Nat) : LStep st (watchCancel st a) := by
-  unfold watchCancel
-  split
-  · exact LStep.refl st
-  · split
-    · exact (g4_fail st _).lstep
-    · split
-      · exact LStep.refl st
-      · split
-        · exact (g4_fail st _).lstep
-        · split
-          · exact LStep.refl st
-          · rename_i hcn
-            have : a ∈ listOf st (st.getW a).type := by simpa using hcn
-            exact lstep_cancelFound st a this
-
 theorem g4_setTypeNone_unlisted (st : St) (a : Nat) (h : ∀ t, a ∉ listOf st t) : LStep st (st.setW a { st.getW a with type := .none }) := by
   intro _ w
   have hl : ∀ t, listOf (st.setW a { st.getW a with type := .none }) t = listOf st t := fun t => by cases t <;> rfl
@@ -546,6 +530,45 @@ theorem g4_setTypeNone_unlisted (st : St) (a : Nat) (h : ∀ t, a ∉ listOf st 
   · intro t b hb; rw [hl] at hb
     have : a ≠ b := fun e => h t (e ▸ hb)
     rw [St.getW_setW_ne _ _ _ _ this]; exact w.typ t b hb
+
+/-- The repaired tail of `tickit_watch_cancel`: the watch was not found in the list of its type, so (lists hold
+    watches of their own type) it is in no list; it is notified and marked. -/
+theorem lstep_cancelDetached (st : St) (a : Nat) (hn : a ∉ listOf st (st.getW a).type) : LStep st (cancelDetached st a) := by
+  intro hc w
+  unfold cancelDetached
+  have gN := g4_cancelNotify st a (st.getW a)
+  have hun : ∀ t, a ∉ listOf (cancelNotify st a (st.getW a)) t := by
+    intro t h
+    rw [gN.lists] at h
+    have := w.typ t a h
+    rw [← this] at h
+    exact hn h
+  exact (LStep.trans gN.lstep (g4_setTypeNone_unlisted _ a hun)) hc w
+
+theorem g4_laterPre (st : St) (a : Nat) : G4 st (laterPre st a) := by
+  unfold laterPre
+  split
+  · exact g4_setW _ a _ rfl rfl
+  · exact G4.refl _
+
+theorem l_watchCancel (st : St) (a : Nat) : LStep st (watchCancel st a) := by
+  unfold watchCancel
+  split
+  · exact LStep.refl st
+  · split
+    · exact (g4_fail st _).lstep
+    · split
+      · exact LStep.refl st
+      · split
+        · exact (g4_fail st _).lstep
+        · split
+          · rename_i hcn
+            split
+            · exact lstep_cancelDetached st a (by simpa using hcn)
+            · exact LStep.refl st
+          · rename_i hcn
+            have : a ∈ listOf st (st.getW a).type := by simpa using hcn
+            exact lstep_cancelFound st a this
 
 theorem lstep_unlink_found (st : St) (a : Nat) (t0 : WType) (ha : a ∈ listOf st t0) :
     LStep st (((setListOf st t0 ((listOf st t0).erase a)).setW a { st.getW a with type := .none }).free a) := by
@@ -773,6 +796,10 @@ theorem l_laterCb (st : St) (a : Nat) : LStep st (laterCb st a) := by
     · exact LStep.refl _
 
 
+/-- `laterPre` then the callback. -/
+theorem l_laterPreCb (st : St) (a : Nat) : LStep st (laterCb (laterPre st a) a) :=
+  (g4_laterPre st a).lstep.trans (l_laterCb _ a)
+
 /-- The loop over the detached batch: its members are live, in no list, and freed one by one. -/
 theorem l_laterLoopT (l : List Nat) : ∀ st : St, (∀ a ∈ l, a < st.heap.length ∧ ∀ t, a ∉ listOf st t) → LStep st (laterLoopT st l).1 := by
   induction l with
@@ -785,21 +812,31 @@ theorem l_laterLoopT (l : List Nat) : ∀ st : St, (∀ a ∈ l, a < st.heap.len
     · split
       · exact (g4_fail _ _).lstep
       · split
-        · exact l_laterCb _ _
+        · -- a cancelled entry: freed without being invoked
+          intro hc w
+          have ha := hl a List.mem_cons_self
+          have f2 : LFacts st (st.free a) := lstep_free_unlisted st a ha.2 hc w
+          have hrest : ∀ b ∈ rest, b < (st.free a).heap.length ∧ ∀ t, b ∉ listOf (st.free a) t := by
+            intro b hb
+            have hb' := hl b (List.mem_cons_of_mem _ hb)
+            exact ⟨Nat.lt_of_lt_of_le hb'.1 f2.len, unlisted_after f2 hb'.1 hb'.2⟩
+          exact (LStep.trans (fun _ _ => f2) (ih _ hrest)) hc w
         · split
-          · exact (l_laterCb _ _).trans (g4_fail _ _).lstep
-          · intro hc w
-            have f1 := l_laterCb st a hc w
-            have ha := hl a List.mem_cons_self
-            have hun1 := unlisted_after f1 ha.1 ha.2
-            have f2 := lstep_free_unlisted (laterCb st a) a hun1 (by rw [f1.cfg]; exact hc) f1.wf
-            have f12 : LFacts st ((laterCb st a).free a) :=
-              (LStep.trans (fun _ _ => f1) (lstep_free_unlisted (laterCb st a) a hun1)) hc w
-            have hrest : ∀ b ∈ rest, b < ((laterCb st a).free a).heap.length ∧ ∀ t, b ∉ listOf ((laterCb st a).free a) t := by
-              intro b hb
-              have hb' := hl b (List.mem_cons_of_mem _ hb)
-              exact ⟨Nat.lt_of_lt_of_le hb'.1 f12.len, unlisted_after f12 hb'.1 hb'.2⟩
-            exact (LStep.trans (fun _ _ => f12) (ih _ hrest)) hc w
+          · exact l_laterPreCb _ _
+          · split
+            · exact (l_laterPreCb _ _).trans (g4_fail _ _).lstep
+            · intro hc w
+              have f1 := l_laterPreCb st a hc w
+              have ha := hl a List.mem_cons_self
+              have hun1 := unlisted_after f1 ha.1 ha.2
+              have f12 : LFacts st ((laterCb (laterPre st a) a).free a) :=
+                (LStep.trans (fun _ _ => f1) (lstep_free_unlisted (laterCb (laterPre st a) a) a hun1)) hc w
+              have hrest : ∀ b ∈ rest, b < ((laterCb (laterPre st a) a).free a).heap.length ∧
+                  ∀ t, b ∉ listOf ((laterCb (laterPre st a) a).free a) t := by
+                intro b hb
+                have hb' := hl b (List.mem_cons_of_mem _ hb)
+                exact ⟨Nat.lt_of_lt_of_le hb'.1 f12.len, unlisted_after f12 hb'.1 hb'.2⟩
+              exact (LStep.trans (fun _ _ => f12) (ih _ hrest)) hc w
 
 theorem pop_is_erase (st : St) (a : Nat) (rest : List Nat) (hq : st.timers = a :: rest) :
     ({ st with timers := rest } : St) = setListOf st .timer ((listOf st .timer).erase a) := by
